@@ -51,6 +51,9 @@ Descr(cfg, arg) ==
          IF arg.name = Svc \/ arg.name \in cfg THEN [t |-> "descr", name |-> arg.name]
          ELSE [t |-> "invalid", p |-> "interface"]
 
+(* Registration is a sequence of interface objects; the routing table is the SET of their names: registering a name a second time *)
+(* (a default implementation and its override) replaces the object behind the entry, it does not add an entry.                       *)
+Table(regs) == {regs[i] : i \in 1..Len(regs)}
 (* GetInfo: org.varlink.service first, then every registered interface exactly once (any order) *)
 InfoOk(cfg, list) ==
   /\ Len(list) = Cardinality(cfg) + 1
